@@ -186,6 +186,26 @@ pub fn run(ctx: &mut Ctx) {
             }
         }
     }
+    // the bracket-less spelling with an operand that is an OPERATION evaluating to an array, an empty array, null,
+    // a string of digits: {"op": x} is {"op": [x]} for every operator, whatever x evaluates to
+    if ctx.mine() {
+        let d = json!({"arr3": [1, 5, 3], "one": [7], "empty": [], "nul": null, "s": "12", "nested": [[1, 2]]});
+        for x in [json!({"var": "arr3"}), json!({"var": "one"}), json!({"var": "empty"}), json!({"var": "nul"}), json!({"var": "s"}), json!({"var": "nested"}), json!({"merge": [4, 2]}), json!({"filter": [[1, 2], true]}), json!({"if": [true, [3, 4]]})] {
+            for k in OPS {
+                ctx.edge();
+                let r1 = al::obj1(k, x.clone());
+                let r2 = op(k, vec![x.clone()]);
+                let (o1, o2) = (ctx.exec(&r1, &d), ctx.exec(&r2, &d));
+                let same = match (o1.ok(), o2.ok()) {
+                    (Some(a), Some(b)) => a == b && o1.log == o2.log,
+                    (None, None) => o1.is_err() && o2.is_err(),
+                    _ => false,
+                };
+                ctx.record("sugar:computed-operand:bracketed", &r2, &d, &o2, None);
+                ctx.record("sugar:computed-operand:bare", &r1, &d, &o1, if same { None } else { Some((format!("same as bracketed: {}", o2.show()), o1.show())) });
+            }
+        }
+    }
     // the bracket-less spelling for the data operators over path keys in every lexer state (escapes without
     // dots, trailing / leading separators, doubled separators): {"var": k} is exactly {"var": [k]}
     if ctx.mine() {
